@@ -7,8 +7,8 @@
    tun_metadataN is be1024 of which 992 bits (124 bytes) are usable; pbb_isid is 3. *)
 From Coq Require Import NArith List String.
 Import ListNotations.
-Open Scope N_scope.
-Open Scope string_scope.
+Local Open Scope N_scope.
+Local Open Scope string_scope.
 
 Definition NXM0 : N := 0.
 Definition NXM1 : N := 1.
